@@ -19,13 +19,13 @@ def levels(tier):
              "alphabet": ["we", "addprefix", "moveprefix", "delwe", "links"], "links_batch": 1, "defaults": ["never"]},
         ]
     return [
-        {"name": "n2", "n": 2, "alphabet": ["links", "we", "addprefix", "batch", "page", "delwe", "moveprefix"], "links_batch": 2,
-         "batch_targets": 2, "defaults": ["never", "domain", "path1"]},
-        {"name": "n3", "n": 3, "alphabet": ["links", "we", "addprefix"], "links_batch": 2, "defaults": ["never", "domain"]},
         {"name": "nested-n2", "n": 2, "prelude": [["links", [[1, 3], [1, 3], [3, 1], [2, 2], [1, 2]]], ["we", [[0, 3]]], ["we", [[1, 4]]]],
          "alphabet": ["delwe", "rmprefix", "moveprefix", "addprefix", "links"], "links_batch": 1, "defaults": ["never"]},
+        {"name": "n2-wide", "n": 2, "alphabet": ["links", "we", "addprefix", "batch", "delwe"], "links_batch": 1, "batch_targets": 1,
+         "defaults": ["never", "domain"]},
         {"name": "tpl-n3", "n": 3, "prelude": [["links", [[1, 3], [1, 3], [3, 1], [2, 2], [1, 2]]], ["page", 1, True], ["we", [[0, 3]]]],
-         "alphabet": ["we", "addprefix", "moveprefix", "delwe", "links"], "links_batch": 1, "defaults": ["never", "domain"]},
+         "alphabet": ["we", "addprefix", "delwe", "links"], "links_batch": 1, "defaults": ["never"]},
+        {"name": "n3", "n": 3, "alphabet": ["links", "we", "addprefix"], "links_batch": 1, "defaults": ["never"], "pool": [POOL4[0], POOL4[1], POOL4[3]]},
     ]
 
 
